@@ -160,7 +160,7 @@ def step (s : Store) : StoreOp → StoreRes
   | .remAtt a b => s.removeAttack a b
 
 /-- `ArgumentSet::new_with_labels` then optional set-level updates, then
-`AAFramework::new_with_argument_set` (rows sized by the **live** count) -/
+`AAFramework::new_with_argument_set` (rows sized by the number of ids ever issued) -/
 def ofLabels (ls : List Nat) : Store := ls.foldl newLabel empty
 
 def setRemove (s : Store) (l : Nat) : Store :=
@@ -171,7 +171,7 @@ def setRemove (s : Store) (l : Nat) : Store :=
                         nRemoved := s.nRemoved + 1 }
 
 def withRowsByLen (s : Store) : Store :=
-  { s with from_ := List.replicate s.len [], to_ := List.replicate s.len [] }
+  { s with from_ := List.replicate s.labels.length [], to_ := List.replicate s.labels.length [] }
 
 /-! ## observers -/
 
